@@ -16,7 +16,8 @@ def make_infeasible(p, rng):
     q = copy.deepcopy(p)
     ft = A.flat_tasks(q)
     leaves = [(fid, t) for fid, t, par, _ in ft if A.is_leaf(t)]
-    kind = rng.choice(["cycle", "self", "late-start", "early-end", "never-works", "zero", "huge", "neg", "far-end", "dup-dep", "late-gap"])
+    kind = rng.choice(["cycle", "self", "late-start", "early-end", "never-works", "zero", "huge", "neg", "far-end", "dup-dep", "late-gap",
+                       "alap-worktime-gap"])
     fid, t = rng.choice(leaves)
     cmp_ok = True
     if kind == "cycle" and len(leaves) >= 2:
@@ -58,6 +59,19 @@ def make_infeasible(p, rng):
         other = rng.choice([f for f, _ in leaves if f != fid])
         if not other.startswith(fid) and not fid.startswith(other):
             t.setdefault("deps", []).append({"target": other, "ref": other, "gap": "400d"})
+        cmp_ok = False
+    elif kind == "alap-worktime-gap" and len(leaves) >= 2:
+        # a working-time gap (gaplength) far longer than the working time there is, on an edge of a backward-scheduled
+        # project: whatever a scheduler makes of it, it has to come back
+        other = rng.choice([f for f, _ in leaves if f != fid])
+        if not other.startswith(fid) and not fid.startswith(other):
+            d = {"target": other, "ref": other, "glen": rng.choice(["5w", "60d", "30d", "2w"])}
+            if rng.random() < 0.3:
+                d["onstart"] = True
+            t.setdefault("deps", []).append(d)
+        q["sched"] = "alap"
+        if rng.random() < 0.5:
+            t["end"] = q["start"] + rng.choice([1, 2, 3]) * D + 17 * H
         cmp_ok = False
     return q, kind, cmp_ok
 
@@ -279,10 +293,14 @@ def run(chk):
         for sc in ob["scenarios"]:
             for fid, x in sc["tasks"].items():
                 if x["leaf"] and x["scheduled"] and x["start"] is not None and x["end"] is not None and x["start"] > x["end"]:
+                    # both dates are the user's own: a start on the task and an end on the task or inherited from an
+                    # enclosing container (the pre-pass takes an effort-less leaf with both as dated; nothing is computed)
                     user_pinned = False
-                    for f2, t2, _, _ in (A.flat_tasks(q) if q else []):
-                        if f2 == fid and t2.get("start") is not None and t2.get("end") is not None:
-                            user_pinned = True
+                    nodes = {f2: t2 for f2, t2, _, _ in (A.flat_tasks(q) if q else [])}
+                    t2 = nodes.get(fid)
+                    if t2 is not None and t2.get("start") is not None and (
+                            t2.get("end") is not None or any(nodes[a].get("end") is not None for a in A.ancestors(fid) if a in nodes)):
+                        user_pinned = True
                     if not user_pinned:
                         found.append((f"C11: {kind} project: task {fid} scheduled with start > end", {"text": t, "kind": kind}))
             unsched = [f for f, x in sc["tasks"].items() if x["leaf"] and not x["scheduled"]]
